@@ -10,8 +10,14 @@ import (
 	jsoniter "github.com/json-iterator/go"
 )
 
-// Do not use jsoniter.ConfigFastest here: it encodes floats with 6 digits only and would alter job variables
-var json = jsoniter.ConfigCompatibleWithStandardLibrary
+// Do not use jsoniter.ConfigFastest here: it encodes floats with 6 digits only and would alter job variables.
+// A dedicated configuration is needed, since the time format of the shared jsoniter.ConfigCompatibleWithStandardLibrary
+// is changed globally by the API server (timestamps would be stored without fractional seconds).
+var json = jsoniter.Config{
+	EscapeHTML:             true,
+	SortMapKeys:            true,
+	ValidateJsonRawMessage: true,
+}.Froze()
 
 type PersistedJob struct {
 	ID       uuid.UUID
